@@ -10,6 +10,31 @@ PROBES = ['EpochConvention', 'EpochGap', 'HWFallback', 'ExpandLagging']
 FIXED_PROBES = ['StaleIsrOffset']
 
 
+def design_check(module, cfg, **kw):
+    """core.tlc_check; with VERIF_DESIGN_CACHE=<dir> (used when the same check is run against many patched trees of
+    /repo: the design check does not read /repo) the result for identical specification files + config is reused."""
+    import json
+    cache = os.environ.get('VERIF_DESIGN_CACHE')
+    path = None
+    if cache:
+        texts = []
+        for f in sorted(os.listdir(core.SPEC)):
+            if f == cfg or (f.endswith('.tla') and ('Replication' in f or f == 'LogDefs.tla')):
+                with open(os.path.join(core.SPEC, f)) as fh:
+                    texts.append(fh.read())
+        path = os.path.join(cache, 'design-%s-%s.json' % (cfg, core.sha(texts)))
+        if os.path.exists(path):
+            with open(path) as fh:
+                return json.load(fh)
+    res = core.tlc_check(module, cfg, **kw)
+    if path and res.get('ok'):
+        os.makedirs(cache, exist_ok=True)
+        with open(path + '.tmp%d' % os.getpid(), 'w') as fh:
+            json.dump(dict(res, out=res['out'][-2000:], cached=True), fh)
+        os.replace(path + '.tmp%d' % os.getpid(), path)
+    return res
+
+
 def to_stimulus(beh, bid, cfg=None):
     steps = []
     for st in beh[1:]:
@@ -256,7 +281,7 @@ def probe_stimuli(rep, first_id=9001):
 def sizes_stage(rep, tier, seed, rng, prop, names, quick_n=40):
     """records of two sizes: a replication response is packed by size, the record that does not fit leads
     the next response (WideEvery = 2: every second message takes two units)"""
-    res = core.tlc_check('MC_Replication.tla', 'MC_Replication_sizes.cfg', timeout=1800)
+    res = design_check('MC_Replication.tla', 'MC_Replication_sizes.cfg', timeout=1800)
     rep.add_design('MC_Replication_sizes.cfg', res)
     pool = core.tlc_simulate('MC_Replication.tla', 'Sim_Replication_sizes.cfg', 500 if tier == 'quick' else 5000, 18, seed + 3)
     sims, _ = select(pool, quick_n if tier == 'quick' else 400, rng)
@@ -309,7 +334,7 @@ def run(rep, tier, seed, replay, prop, names, relevant, rule, rf1=False, mc_quic
     designs = [mc_quick, 'MC_Replication_late.cfg'] if tier == 'quick' else ['MC_Replication_late_thorough.cfg', 'MC_Replication_thorough.cfg', 'MC_Replication_alive.cfg',
                                                    'MC_Replication_acks.cfg', 'MC_Replication_fallback.cfg']
     for cfg in designs:
-        res = core.tlc_check('MC_Replication.tla', cfg, timeout=3 * 3600, coverage=False)
+        res = design_check('MC_Replication.tla', cfg, timeout=3 * 3600, coverage=False)
         rep.add_design(cfg, res)
     behaviours = probe_stimuli(rep) + mutant_stimuli(rep)
     import json
@@ -346,7 +371,7 @@ def run(rep, tier, seed, replay, prop, names, relevant, rule, rf1=False, mc_quic
     lines = tr['validated']
     if rf1:
         # replication factor 1 (fast path): one replica, min ISR 1
-        res = core.tlc_check('MC_Replication.tla', 'MC_Replication_rf1.cfg', timeout=1800)
+        res = design_check('MC_Replication.tla', 'MC_Replication_rf1.cfg', timeout=1800)
         rep.add_design('MC_Replication_rf1.cfg', res)
         sims = core.tlc_simulate('MC_Replication.tla', 'Sim_Replication_rf1.cfg', 40 if tier == 'quick' else 400, 14, seed + 1)
         b1 = [to_stimulus(b, 5000 + i, {'minISR': 1, 'fetchMax': 2, 'rf': 1}) for i, b in enumerate(sims) if len(b) > 1]
@@ -357,7 +382,7 @@ def run(rep, tier, seed, replay, prop, names, relevant, rule, rf1=False, mc_quic
         lines += tr1['validated']
         # ... and a minimum ISR the single replica can never reach (min ISR 2, via the server setting or the
         # stream override): LEADER / NONE publishes go on, ALL publishes are stored but never acknowledged
-        res = core.tlc_check('MC_Replication.tla', 'MC_Replication_rf1min2.cfg', timeout=1800)
+        res = design_check('MC_Replication.tla', 'MC_Replication_rf1min2.cfg', timeout=1800)
         rep.add_design('MC_Replication_rf1min2.cfg', res)
         sims = core.tlc_simulate('MC_Replication.tla', 'Sim_Replication_rf1min2.cfg', 20 if tier == 'quick' else 200, 12, seed + 4)
         b1m = [to_stimulus(b, 5500 + i, {'minISR': 2, 'fetchMax': 2, 'rf': 1}) for i, b in enumerate(sims) if len(b) > 1]
@@ -368,7 +393,7 @@ def run(rep, tier, seed, replay, prop, names, relevant, rule, rf1=False, mc_quic
         lines += tr1m['validated']
     if rf1:
         # batches of up to two messages with mixed ack policies (BatchMaxMessages = 2)
-        res = core.tlc_check('MC_Replication.tla', 'MC_Replication_batch.cfg', timeout=1800)
+        res = design_check('MC_Replication.tla', 'MC_Replication_batch.cfg', timeout=1800)
         rep.add_design('MC_Replication_batch.cfg', res)
         sims = core.tlc_simulate('MC_Replication.tla', 'Sim_Replication_batch.cfg', 25 if tier == 'quick' else 300, 14, seed + 2)
         # every other behaviour sends the members of a batch 25 ms apart, so that the later ones
